@@ -433,16 +433,45 @@ func realMain(rep *report.Report, tier, driver, corpus, replay string, n int) in
 		}
 		corpusCases = len(cases)
 		if n == 0 {
-			n = 700
+			n = 5000
 			if tier == "thorough" {
-				n = 9000
+				n = 100000
 			}
 		}
-		r := rng.FromEnv(0xC20)
-		for i := 0; i < n; i++ {
-			cases = append(cases, generate(r.Fork()))
+	}
+	if replay != "" {
+		n = 0
+	}
+	r := rng.FromEnv(0xC20)
+	known := map[string]int{}
+	skipped, internal, total := 0, 0, 0
+	const batchSize = 3000
+	first := true
+	for first || n > 0 {
+		first = false
+		batch := cases
+		cases = nil
+		for len(batch) < batchSize && n > 0 {
+			batch = append(batch, generate(r.Fork()))
+			n--
+		}
+		if len(batch) == 0 {
+			break
+		}
+		rc := runBatch(rep, drv, batch, corpusCases, total, known, &skipped, &internal)
+		corpusCases = 0
+		total += len(batch)
+		if rc != 0 {
+			return rc
 		}
 	}
+	return finish(rep, replay, known, skipped, internal, total)
+}
+
+// runBatch runs one batch of cases: implementation side in parallel, then the model, then the comparison.
+func runBatch(rep *report.Report, drv string, cases []*caseInput, corpusCases, offset int, known map[string]int, skippedP, internalP *int) int {
+	skipped, internal := 0, 0
+	defer func() { *skippedP += skipped; *internalP += internal }()
 
 	// phase 1: implementation side, in parallel
 	results := make([]*caseResult, len(cases))
@@ -454,7 +483,7 @@ func realMain(rep *report.Report, tier, driver, corpus, replay string, n int) in
 		go func(i int) {
 			defer wg.Done()
 			defer func() { <-sem }()
-			results[i] = runCase(i, cases[i])
+			results[i] = runCase(offset+i, cases[i])
 		}(i)
 	}
 	wg.Wait()
@@ -477,9 +506,7 @@ func realMain(rep *report.Report, tier, driver, corpus, replay string, n int) in
 	}
 
 	// phase 3: compare
-	known := map[string]int{}
 	k := 0
-	skipped, internal := 0, 0
 	for ci, res := range results {
 		src := "generated"
 		if ci < corpusCases {
@@ -499,7 +526,7 @@ func realMain(rep *report.Report, tier, driver, corpus, replay string, n int) in
 			continue
 		}
 		rep.Hist("generator", "valid ("+src+")")
-		rep.Case(res.input, len(res.changes) > 0)
+		rep.Case(fmt.Sprintf("%x", sha256.Sum256([]byte(res.in.Old.renderKey()+"\x00"+res.in.New.renderKey())))[:24], len(res.changes) > 0)
 		modelRun := answers[k]
 		k++
 		dis := func(kind, impl, model, oracle string) {
@@ -578,10 +605,14 @@ func realMain(rep *report.Report, tier, driver, corpus, replay string, n int) in
 		fmt.Fprintln(os.Stderr, "breakcheck: answer bookkeeping")
 		return 3
 	}
+	return 0
+}
+
+func finish(rep *report.Report, replay string, known map[string]int, skipped, internal, total int) int {
 	if internal > 0 {
 		return 3
 	}
-	if total := len(results); skipped*10 > total && total > 20 {
+	if skipped*10 > total && total > 20 {
 		fmt.Fprintf(os.Stderr, "breakcheck: generator rejects too many programs (%d of %d)\n", skipped, total)
 		return 3
 	}
